@@ -69,6 +69,17 @@ def check_unsort_pairs(ctx, fi, rule='R-PERM/unsort-pair'):
                     first.id == p or sorted_by(first.id, nid, p)):
                 return True
             if parts and all(isinstance(x, ast.Slice) for x in parts):
+                # X[s[0]:s[-1]+1]: a contiguous read between elements of
+                # the sorted index is in file order, which is the sorted
+                # order (a request that does not fill the range does not
+                # fit the result and fails)
+                if any(isinstance(n_, ast.Name) and (
+                        n_.id == p or sorted_by(n_.id, nid, p))
+                       for x in parts for n_ in ast.walk(x)):
+                    return True
+                return derives_sorted(e.value, nid, p, depth + 1)
+            if parts and all(isinstance(x, ast.Constant) for x in parts):
+                # element of a tuple a reader returns
                 return derives_sorted(e.value, nid, p, depth + 1)
             return False
         if isinstance(e, ast.Name):
@@ -95,6 +106,14 @@ def check_unsort_pairs(ctx, fi, rule='R-PERM/unsort-pair'):
                 # method of an array: x.astype(...), x.copy()
                 if f.attr in ('astype', 'copy', 'cumsum', 'round'):
                     return derives_sorted(f.value, nid, p, depth + 1)
+                # reader.get_chunk(r0=s[0], r1=s[-1]+1): the same
+                # contiguous read through a method
+                bounds = list(e.args) + [k.value for k in e.keywords]
+                if bounds and all(any(
+                        isinstance(n_, ast.Name) and (
+                            n_.id == p or sorted_by(n_.id, nid, p))
+                        for n_ in ast.walk(b)) for b in bounds):
+                    return True
                 return False
             return any(derives_sorted(a, nid, p, depth + 1)
                        for a in e.args)
